@@ -60,7 +60,12 @@ class Ctx:
             self.samples.append(s)
 
     def scale(self, quick, thorough):
-        return thorough if self.tier == "thorough" else quick
+        if self.tier == "thorough":
+            return thorough
+        b = getattr(self, "boost", 1)
+        if b > 1 and isinstance(quick, int) and not isinstance(quick, bool) and isinstance(thorough, int) and thorough > quick:
+            return min(thorough, quick * b)  # the source differs from the validated tree: look longer (harness/fingerprint.py)
+        return quick
 
     def elapsed(self):
         return time.time() - self.t0
@@ -309,6 +314,14 @@ def main(argv=None):
 
     # (4)-(5) correspondence + predicate
     ctx = Ctx(pid, tier, seed)
+    from . import fingerprint
+
+    changed_src = fingerprint.changed()
+    if changed_src:
+        ctx.boost = fingerprint.BOOST
+        ctx.extra["changed_sources"] = changed_src[:20]
+        print(f"note: {len(changed_src)} module(s) differ from the validated tree ({', '.join(changed_src[:3])}{', …' if len(changed_src) > 3 else ''}): "
+              f"the quick tier draws {fingerprint.BOOST}x as many cases")
     try:
         mod.run(ctx)
     except core.DriverError as e:
